@@ -45,7 +45,8 @@ CLAIMED.update({
         "Lean 4 theorems: uniqueness of the solution of the local equations => order independence; every toposort tie-break and every interleaving of independent sub-graph orders is a valid order; differential correspondence + schedule comparison on the real engine",
         "Proof: order_independent, toposort_valid, run_pick_independent, merge_valid, run_modes_agree over IV.Dr. The implementation is additionally run under dr.run, forced extensions, "
         "run_incremental, interleavings, deferring and real thread pools, insights._run(parallel) and child interpreters with other PYTHONHASHSEEDs, all compared. "
-        "Partial: sub-step interleavings inside CPython (GIL) cannot be exhibited by the model; get_subgraphs' partition is checked by the oracle, its Lean theorem is not yet part of the model.",
+        "order_independent_excLog (the exception logs of two valid orders are permutations of each other), subgraphs_partition / subgraphs_no_duplicate over IV.Model.Subgraphs (every key of a symmetric-closed graph lies in exactly one sub-graph), tied by the get_subgraphs-vs-model stream. "
+        "Partial: sub-step interleavings inside CPython (GIL) cannot be exhibited by the model.",
         DR_NOTE, "DESIGN.md §6 C04"),
 })
 
